@@ -308,11 +308,20 @@ func (g *gen) e2eClient(kind string, addr string, h *e2eHandler) {
 func runE2E(c *corr.Ctx, g *gen) {
 	t0 := time.Now()
 	defer func() { c.Note(fmt.Sprintf("e2e took %.1fs", time.Since(t0).Seconds())) }()
-	addr := freeAddr()
 	h := &e2eHandler{requests: map[*gortsplib.ServerConn][]string{}, responses: map[*gortsplib.ServerConn][]string{}}
-	s := &gortsplib.Server{Handler: h, RTSPAddress: addr}
-	if err := s.Start(); err != nil {
+	var s *gortsplib.Server
+	var addr string
+	var err error
+	for try := 0; try < 20; try++ { // other checks use loopback ports at the same time
+		addr = freeAddr()
+		s = &gortsplib.Server{Handler: h, RTSPAddress: addr}
+		if err = s.Start(); err == nil {
+			break
+		}
+	}
+	if err != nil {
 		c.Note("e2e: server could not be started on loopback: " + err.Error())
+		c.Dist("e2e-unavailable")
 		return
 	}
 	defer s.Close()
